@@ -88,7 +88,9 @@ namespace sim
 
 		m_queue.emplace_back(now + m_forwarding_latency, std::move(p));
 		m_queue_size += packet_size;
-		if (m_queue.size() > 1) return;
+		// if we're called back from forwarding a packet (its receiver responded
+		// through this very queue), next_packet_sent() starts the sender
+		if (m_queue.size() > 1 || m_forwarding) return;
 
 		begin_send_next_packet();
 	}
@@ -133,7 +135,9 @@ namespace sim
 		const int packet_size = int(p.buffer.size() + p.overhead);
 		m_queue_size -= packet_size;
 
+		m_forwarding = true;
 		forward_packet(std::move(p));
+		m_forwarding = false;
 
 		if (m_queue.size())
 			begin_send_next_packet();
